@@ -72,6 +72,7 @@ func runC05(p *load.Program, r *oblig.Report) {
 	c05TimestampDelta(p, r)
 	c05WrapperOffsets(p, r)
 	c05StandaloneReadFrom(p, r)
+	c05MessageSizeFloor(p, r)
 	c05VersionPerBatch(p, r)
 }
 
